@@ -15,7 +15,8 @@ Definition Qmaxf (a b : Q) : Q := if Qlt_le_dec a b then b else a.
 Definition Qops : ops Q :=
   mkops Q Qplus Qminus Qmult Qdiv Qopp (fun x => x) (fun x => x * x) 0 1 2 (1 # 2)
         (fun x => x) (fun x => x) (fun x => x) Qmaxf (fun n => inject_Z (Z.of_nat n))
-        (fun x => x) (fun a b => (a, b)) 10 (fun x => x) (fun x => x) (fun x => x).
+        (fun x => x) (fun a b => (a, b)) 10 (fun x => x) (fun x => x) (fun x => x)
+        4 0 (fun x => x) (fun a _ => a) (fun x => x).
 
 Notation qmsg := (msg (T := Q)).
 Notation veq := (Forall2 Qeq).
@@ -547,6 +548,13 @@ Section Fixed.
   Proof. intro H. unfold b_div, is_fixed. rewrite H. reflexivity. Qed.
   Lemma fixed_pow (a : msg (T := T)) (k : T) : fam a = FFixed -> b_pow O a k = a.
   Proof. intro H. unfold b_pow, is_fixed. rewrite H. reflexivity. Qed.
+  (* with `__truediv__ = _no_op` (proposed) division by a real is the identity too *)
+  Lemma fixed_sdiv (V : variant) (a : msg (T := T)) (c : T) : fam a = FFixed -> fixed_truediv_noop V = true ->
+    b_sdiv O V a c = a /\ b_sdiv O V (b_smul O a c) c = a.
+  Proof.
+    intros H K. assert (S : b_smul O a c = a) by (unfold b_smul, is_fixed; rewrite H; reflexivity).
+    rewrite S. unfold b_sdiv, is_fixed. rewrite H, K. split; reflexivity.
+  Qed.
   Lemma fixed_zeros (a : msg (T := T)) : fam a = FFixed -> b_zeros O a = a.
   Proof. intro H. unfold b_zeros. rewrite H. apply fixed_pow. exact H. Qed.
   Lemma fixed_laws (a b : msg (T := T)) (j k : T) : fam a = FFixed ->
